@@ -94,6 +94,18 @@ impl InstGraph {
             ext: self.ext.iter().map(|&v| map[v]).collect(),
         }
     }
+    /// as `to_spec`, but the list of externals is given in random order and, sometimes, with a vertex listed
+    /// twice (the externals are a SET in the specification; the API takes a Vec)
+    pub fn to_spec_messy(&self, map: &[u8], swap: &[bool], rng: &mut impl Rng) -> GraphSpec {
+        let mut gs = self.to_spec(map, swap);
+        gs.ext.shuffle(rng);
+        if !gs.ext.is_empty() && rng.gen_bool(0.25) {
+            let d = gs.ext[rng.gen_range(0..gs.ext.len())];
+            let pos = rng.gen_range(0..=gs.ext.len());
+            gs.ext.insert(pos, d);
+        }
+        gs
+    }
 }
 
 pub fn hexf(x: f64) -> String {
